@@ -304,11 +304,13 @@ Lemma fit_entry_ok p X Y a : fit_entry p X Y = FitOk a ->
   a_xshape a = shape X /\ a_yshape a = shape Y2 /\
   cp_plsr_fit Op sqrtF init ne_solve (pp_tol p) (pp_niter p) (pp_ncomp p) X Y2 = Ok (a_fit a) /\
   a_fit a = fit_cp Op sqrtF init ne_solve (pp_tol p) (pp_niter p) (pp_ncomp p) X Y2 /\
-  fitted_width a = pp_ncomp p /\ ((ndim Y =? 1) || (ndim Y =? 2)) = true.
+  fitted_width a = pp_ncomp p /\ ((ndim Y =? 1) || (ndim Y =? 2)) = true /\ nsamp X = nsamp (as_matrix Y).
 Proof.
   unfold RegressObj.plsr_fit_entry. destruct (shape X) as [|nx sx] eqn:HX; [discriminate|].
   destruct (shape Y) as [|ny sy] eqn:HY; [discriminate|].
-  destruct (negb (nx =? ny)); [discriminate|]. destruct (ndim X <? 2); [discriminate|].
+  destruct (nx =? ny) eqn:En; cbn [negb]; [apply Nat.eqb_eq in En|discriminate]. destruct (ndim X <? 2); [discriminate|].
+  assert (Hns : nsamp X = nsamp (as_matrix Y)).
+  { unfold nsamp, as_matrix. rewrite HX, HY. destruct sy as [|m l]; cbn [shape hd]; [exact En|]. rewrite HY. exact En. }
   destruct ((ndim Y =? 1) || (ndim Y =? 2)) eqn:HnY; cbn [negb]; [|discriminate].
   destruct (cp_plsr_fit _ _ _ _ _ _ _ _ _) as [r|] eqn:E; [|discriminate].
   intros H. injection H as <-. cbv zeta. cbn [a_xshape a_yshape a_fit].
@@ -324,7 +326,7 @@ Theorem plsr_obj_fit_then_transform o X Y a : fit_entry (po_prm o) X Y = FitOk a
   snd (pstep (mkPobj (po_prm o) (Some a)) (PTransform X None)) =
     PTensor (cols_to_matrix Op (nsamp X) (fitted_scores (a_fit a))).
 Proof.
-  intros H. pose proof (fit_entry_ok _ _ _ _ H) as K. cbv zeta in K. destruct K as (Hx & Hy & _ & Hfit & Hw & _).
+  intros H. pose proof (fit_entry_ok _ _ _ _ H) as K. cbv zeta in K. destruct K as (Hx & Hy & _ & Hfit & Hw & _ & _).
   split; [cbn [RegressObj.pstep]; now rewrite H|].
   cbn [RegressObj.pstep snd po_attrs po_prm]. unfold plsr_transform_entry.
   rewrite Hx, nl_eqb_refl. cbn [negb]. rewrite Hw, Nat.ltb_irrefl.
@@ -340,7 +342,7 @@ Theorem plsr_obj_transform_fewer o X Y a j tolv nit : fit_entry (po_prm o) X Y =
   snd (pstep (mkPobj (mkPprm j nit tolv) (Some a)) (PTransform X None)) =
     if j <=? pp_ncomp (po_prm o) then PTensor (cols_to_matrix Op (nsamp X) (firstn j (fitted_scores (a_fit a)))) else PRaise.
 Proof.
-  intros H. pose proof (fit_entry_ok _ _ _ _ H) as K. cbv zeta in K. destruct K as (Hx & Hy & _ & Hfit & Hw & _).
+  intros H. pose proof (fit_entry_ok _ _ _ _ H) as K. cbv zeta in K. destruct K as (Hx & Hy & _ & Hfit & Hw & _ & _).
   cbn [RegressObj.pstep snd po_attrs po_prm]. unfold plsr_transform_entry. cbn [pp_ncomp].
   rewrite Hx, nl_eqb_refl. cbn [negb]. rewrite Hw.
   destruct (j <=? pp_ncomp (po_prm o)) eqn:Hj.
@@ -402,6 +404,35 @@ Proof.
     assert (E : shape (as_matrix Yn) = y_matrix_shape (shape Yn))
       by (unfold as_matrix, y_matrix_shape; destruct (shape Yn) as [|n [|m l]] eqn:E0; cbn [shape]; auto).
     rewrite E, H. reflexivity.
+Qed.
+
+(* a fit interrupted by lstsq raising at component c: the exposed components are those of the un-interrupted fit before c, component
+   c without its coef_ column, zero columns after *)
+Lemma zero_comp_shape (X Y X' Y' : tensor F) : shape X' = shape X -> shape Y' = shape Y -> zero_comp Op X' Y' = zero_comp Op X Y.
+Proof. intros HX HY. unfold zero_comp, sshape, nsamp. now rewrite HX, HY. Qed.
+
+Lemma fit_loop_until_spec (inner : tensor F -> tensor F -> list (tensor F) * tensor F) lstsq d : forall c k X Y T, c < k ->
+  fit_loop_until Op inner lstsq c k X Y T =
+  firstn c (fit_loop Op inner lstsq k X Y T) ++ strip_B (nth c (fit_loop Op inner lstsq k X Y T) d) :: repeat (zero_comp Op X Y) (k - S c).
+Proof.
+  induction c as [|c IH]; intros [|k] X Y T Hk; try lia; cbn [fit_loop_until fit_loop firstn nth app]; cbv zeta.
+  - unfold strip_B. cbn [c_load c_score c_yload c_yscore Nat.sub]. rewrite ?Nat.sub_0_r. reflexivity.
+  - cbn [app]. f_equal. rewrite IH by lia. cbn [Nat.sub].
+    rewrite (zero_comp_shape X Y (deflate Op X (fst (inner X Y)) (scores Op X (fst (inner X Y)))) _) by reflexivity. reflexivity.
+Qed.
+
+Theorem plsr_fit_raising_spec c p X Y a : fit_entry p X Y = FitOk a -> c < pp_ncomp p ->
+  exists a', plsr_fit_entry_raising Op sqrtF init ne_solve c p X Y = FitRaisePartial a' /\
+    a_xshape a' = a_xshape a /\ a_yshape a' = a_yshape a /\
+    X_mean_ (a_fit a') = X_mean_ (a_fit a) /\ Y_mean_ (a_fit a') = Y_mean_ (a_fit a) /\
+    comps (a_fit a') = firstn c (comps (a_fit a)) ++ strip_B (nth c (comps (a_fit a)) (zero_comp Op X (as_matrix Y)))
+                       :: repeat (zero_comp Op X (as_matrix Y)) (pp_ncomp p - S c).
+Proof.
+  intros H Hc. pose proof (fit_entry_ok _ _ _ _ H) as K. cbv zeta in K. destruct K as (Hx & Hy & _ & Hfit & _).
+  unfold plsr_fit_entry_raising. rewrite H. apply Nat.ltb_lt in Hc. rewrite Hc. apply Nat.ltb_lt in Hc.
+  eexists. split; [reflexivity|]. cbn [a_xshape a_yshape a_fit X_mean_ Y_mean_ comps]. rewrite Hx, Hy, Hfit.
+  unfold fit_cp, fit. cbn [X_mean_ Y_mean_ comps]. repeat split.
+  rewrite (fit_loop_until_spec _ _ (zero_comp Op X (as_matrix Y))) by exact Hc. reflexivity.
 Qed.
 
 (* histories of the CP_PLSR object *)
@@ -481,10 +512,11 @@ Theorem plsr_obj_fit_transform o X Y a : fit_entry (po_prm o) X Y = FitOk a ->
            (cols_to_matrix Op (nsamp (as_matrix Y)) (map (c_yscore (F:=F)) (comps (a_fit a))))).
 Proof.
   intros H. pose proof (fit_entry_ok Op sqrtF init ne_solve _ _ _ _ H) as K. cbv zeta in K.
-  destruct K as (Hx & Hy & _ & Hfit & Hw & HnY).
+  destruct K as (Hx & Hy & _ & Hfit & Hw & HnY & Hns).
   cbn [RegressObj.pstep]. rewrite H. f_equal. unfold plsr_transform_entry.
   rewrite Hx, nl_eqb_refl. cbn [negb]. rewrite Hw, Nat.ltb_irrefl, HnY. cbn [negb].
   rewrite Hy, nl_eqb_refl. cbn [negb]. rewrite Nat.eqb_refl. cbn [negb]. rewrite Bool.andb_false_r.
+  rewrite Hns, Nat.eqb_refl. cbn [negb]. rewrite Bool.andb_false_r. cbn [andb].
   cbn [out_of_transform].
   assert (Hl : firstn (pp_ncomp (po_prm o)) (loadings (a_fit a)) = loadings (a_fit a)).
   { rewrite <- Hw. unfold fitted_width, loadings. now rewrite <- (map_length (c_load (F:=F))), firstn_all. }
@@ -592,7 +624,7 @@ Theorem plsr_entry_perm prm X Y sx a : shape X = n :: sx ->
     forall q Xn, plsr_predict_entry Op q a' Xn = plsr_predict_entry Op q a Xn.
 Proof.
   intros HX HY H.
-  pose proof (fit_entry_ok Op sqrtF init ne_solve _ _ _ _ H) as K. cbv zeta in K. destruct K as (Hx & Hy & Hfit & _ & Hw & _).
+  pose proof (fit_entry_ok Op sqrtF init ne_solve _ _ _ _ H) as K. cbv zeta in K. destruct K as (Hx & Hy & Hfit & _ & Hw & _ & _).
   assert (EA : as_matrix (perm Y) = perm (as_matrix Y) /\ exists m, shape (as_matrix Y) = [n; m] /\ 0 < m).
   { destruct HY as [HY|(m & HY & Hm)].
     - split; [exact (as_matrix_perm p Y n HY)|]. exists 1. unfold as_matrix. rewrite HY. cbn [shape]. auto.
